@@ -1,0 +1,47 @@
+//go:build verif
+
+// Machine-checked contracts for this package (comment-only; compiled only with -tags verif,
+// and even then contributes no code).  Read by /verif/govc; see /verif/DESIGN.md.
+
+package conversion
+
+//@ -- ---------------------------------------------------------------- C29: Kubernetes NetworkPolicy conversion
+//@ -- (call ordinals follow the generated block order: #1 is the call in the egress loop, #2 the one in the ingress loop)
+//@ -- (thin) direction and policy types: ingress rules are converted as ingress and egress rules as egress; the
+//@ -- converted policy applies to ingress iff the Kubernetes policy lists Ingress or lists no type we know, and to
+//@ -- egress iff it lists Egress (only: at least one and at most two types; Ingress first when listed).
+//@ func (converter).K8sNetworkPolicyToCalico
+//@   property C29
+//@   option safety off
+//@   requires np != nil
+//@   ghost at call k8sRuleToCalico#2: check arg3
+//@   ghost at call k8sRuleToCalico#1: check !arg3
+//@   ghost at call k8sSelectorToCalico: check arg1 == SelectorPod ; check len(policyTypes) >= 1 && len(policyTypes) <= 2 ; check ingress ==> policyTypes[0] == apiv3.PolicyTypeIngress
+
+//@ -- peers: an ipBlock peer becomes exactly one net plus one excluded net per exception and no selectors; any
+//@ -- other peer becomes the two selectors (pod selector as a pod selector, namespace selector as a namespace
+//@ -- selector) and no nets; no peer at all becomes nothing
+//@ ghost c29Err bool
+//@ func (converter).k8sPeerToCalicoFields
+//@   property C29
+//@   option safety off
+//@   option stable (*networkingv1.NetworkPolicyPeer).IPBlock, (*networkingv1.NetworkPolicyPeer).PodSelector, (*networkingv1.NetworkPolicyPeer).NamespaceSelector, (*networkingv1.IPBlock).CIDR, (*networkingv1.IPBlock).Except, []string
+//@   requires !c29Err
+//@   ghost at call ParseCIDR#1: check arg0 == peer.IPBlock.CIDR ; c29Err = c29Err || res2 != nil
+//@   ghost at call ParseCIDR#2: check arg0 == exception ; c29Err = c29Err || res2 != nil
+//@   ghost at call k8sSelectorToCalico#1: check peer.IPBlock == nil && arg0 == peer.PodSelector && arg1 == SelectorPod
+//@   ghost at call k8sSelectorToCalico#2: check peer.IPBlock == nil && arg0 == peer.NamespaceSelector && arg1 == SelectorNamespace
+//@   ensures peer == nil ==> res0 == "" && res1 == "" && res2 == nil && res3 == nil
+//@   ensures peer != nil && peer.IPBlock != nil ==> res0 == "" && res1 == ""
+//@   ensures peer != nil && peer.IPBlock != nil && !c29Err ==> len(res2) == 1 && len(res3) == len(peer.IPBlock.Except)
+//@   ensures peer != nil && peer.IPBlock == nil ==> res2 == nil && res3 == nil
+//@   loop 1 invariant -1 <= rangeindex && rangeindex < len(peer.IPBlock.Except) && !c29Err && len(nets) == 1 && len(notNets) == rangeindex + 1
+
+//@ -- default protocol
+//@ func ensureProtocol
+//@   property C29
+//@   ensures res == (proto != "" ? proto : kapiv1.ProtocolTCP)
+//@ func k8sProtocolToCalico
+//@   property C29
+//@   option safety off
+//@   ensures (res == nil) == (protocol == nil)
